@@ -33,6 +33,8 @@ STMTS = [
     'x = (y, z);', 'int q;', 'int q = 3;', 'int r[2];', 'return x;', 'return x + y;', 'return f(x);', 'break;', 'continue;', ';',
     '{ x = y; }', '{ }', 'goto L2;', 'assert(x < 1);', 'assume(x < 1);', 'x = -1;', 'x = +y;', 'x = --y;', 'typedef int T;',
     'switch (x) { case 1: y = z; break; default: y = 1; }', 'x = y == z;', 'x = y && z;', 'x = &y;', 'x = s.f;',
+    # an effect inside the argument of the two annotation calls
+    'assert(x++ > 0);', 'assume(y = z);', 'assert(x < 1);',
 ]
 CONDS = ['x < y', 'x = y + z', 'x++ < 10', '(x = y)', 'f(x)', 'x', '--x', 'x < y++', 'x == (y = 1)', '!x', 'x < 10',
          # an effect below every kind of expression node
@@ -219,6 +221,37 @@ def observe(fnode):
     return res, node
 
 
+def annotation_effects(fnode):
+    """names of assert / assume calls whose argument list contains an assignment or ++ / --"""
+    from pycparser import c_ast
+
+    class Eff(c_ast.NodeVisitor):
+        found = False
+
+        def visit_Assignment(self, n):
+            self.found = True
+
+        def visit_UnaryOp(self, n):
+            if n.op in ('++', '--', 'p++', 'p--'):
+                self.found = True
+            self.generic_visit(n)
+
+    class Calls(c_ast.NodeVisitor):
+        def __init__(self):
+            self.out = []
+
+        def visit_FuncCall(self, n):
+            if isinstance(n.name, c_ast.ID) and n.name.name in ('assert', 'assume') and n.args is not None:
+                e = Eff()
+                e.visit(n.args)
+                if e.found:
+                    self.out.append(n.name.name)
+            self.generic_visit(n)
+    c = Calls()
+    c.visit(fnode)
+    return c.out
+
+
 def run(ctx):
     rng = ctx.rng
     srcs = templates() + wrapper_programs() + grammar_programs(ctx.tier == 'thorough')
@@ -242,6 +275,13 @@ def run(ctx):
             ctx.count('full' if obs.get('full') else ('raised' if 'raised' in obs else 'not_full'))
             if 'raised' in obs:
                 continue   # C06's business
+            if obs.get('full'):
+                # the two annotation calls are skipped by the analysis whatever their argument: an argument that
+                # changes a variable is a statement that 'can change a variable' and gets no flow
+                for callee in annotation_effects(fnode):
+                    ctx.violation({'kind': 'effect-in-annotation-argument'},
+                                  f'fully supported, but the argument of {callee}(...) changes a variable and gets no flow: `{src[:160]}`',
+                                  {'src': src, 'observed': obs})
             pending.append(({'op': 'check.C05', 'ast': wire, 'full': obs['full'], 'warnings': obs['warnings']},
                             ('check', src, obs)))
             pending.append(({'op': 'model.coverage', 'ast': wire}, ('model', src, obs)))
